@@ -2,19 +2,186 @@
 C12 — allocator resource accounting is representation-independent.
 
 Property theorems only; helper lemmas are in `Lemmas/Alloc*.lean`.  The model is
-`ClvmModel/Alloc.lean` (transcription of `src/allocator.rs`), the reference is `RefAlloc`.
+`ClvmModel/Alloc.lean` (a transcription of `src/allocator.rs`), the reference is `RefAlloc`
+(`ClvmModel/Alloc/Ref.lean`): nodes are values (`Clvm.Tree`, every atom a separately stored byte
+string) and the only state is the three counters.  `Refines a out ref` says: the model operation
+and the reference operation succeed or fail together (same error kind); on success the counters
+of the new state are the reference's (`abs a' = r'`), the new node denotes the reference's tree,
+`Inv` holds again and the state only grew; on failure the state is unchanged.
+
+The property is **false** of the current code for `new_substr` (DESIGN §6 finding C); it is
+represented as `SubstrRefines` / `HistoryCounts` (full statements), `…_partial` theorems outside
+the decidable defect region `substrDefect`, and `…_witness` theorems.
 -/
-import ClvmModel.Alloc.Session
+import ClvmProofs.Lemmas.AllocStep
 
 namespace Clvm.Props.C12
 open Clvm Clvm.Alloc
 
 /-- a fresh allocator reports the counts of the historical heap-only allocator (`nil`, `one`) -/
-theorem new_counts (limit : Nat) (a : Alloc) (h : newLimited limit = .ok a) :
-    atomCount a = Gen.initGhostAtoms ∧ pairCount a = Gen.initGhostPairs ∧ heapSize a = Gen.initGhostHeap := by
+theorem new_counts (limit : Nat) (a : Alloc) (h : newLimited limit = .ok a) : abs a = RefAlloc.new limit := by
   unfold newLimited at h
   split at h
   · cases h
-  · cases h; simp [atomCount, pairCount, heapSize]
+  · cases h; rfl
+
+/-! ### `step_refines`: every allocating operation commutes with `abs` -/
+
+theorem refines_new_atom (a : Alloc) (b : Bytes) (hI : Inv a) :
+    Refines a (newAtom a b) ((abs a).newAtom b) := newAtom_refines a b hI
+
+theorem refines_new_small_number (a : Alloc) (v : Nat) (hI : Inv a) (hv : v < 2 ^ Gen.nodePtrIdxBits) :
+    Refines a (newSmallNumber a v) ((abs a).newInt (v : Int)) :=
+  newSmallNumber_refines a v hI (by unfold idxMask; omega)
+
+theorem refines_new_u64 (a : Alloc) (v : Nat) (hI : Inv a) (hv : v < 2 ^ 64) :
+    Refines a (newU64 a v) ((abs a).newInt (v : Int)) := newU64_refines a v hI hv
+
+theorem refines_new_i64 (a : Alloc) (v : Int) (hI : Inv a) (h1 : -(2 : Int) ^ 63 ≤ v) (h2 : v < (2 : Int) ^ 63) :
+    Refines a (newI64 a v) ((abs a).newInt v) := newI64_refines a v hI h1 h2
+
+theorem refines_new_number (a : Alloc) (v : Int) (hI : Inv a) :
+    Refines a (newNumber a v) ((abs a).newInt v) := newNumber_refines a v hI
+
+theorem refines_new_pair (a : Alloc) (l r : Ptr) (hI : Inv a) (hl : Valid a l) (hr : Valid a r) :
+    Refines a (newPair a l r) ((abs a).newPair (treeOf a l) (treeOf a r)) := newPair_refines a l r hI hl hr
+
+/-- (a single pair operand violates the API's precondition: the crate panics in `atom_len`) -/
+theorem refines_new_concat (a : Alloc) (newSize : Nat) (ps : List Ptr) (hI : Inv a)
+    (hv : ∀ p ∈ ps, Valid a p) (h1 : ∀ i, ps ≠ [.pair i]) :
+    Refines a (newConcat a newSize ps) ((abs a).newConcat newSize (ps.map (treeOf a))) :=
+  newConcat_refines a newSize ps hI hv h1
+
+theorem refines_add_ghost_atom (a : Alloc) (n : Nat) (hI : Inv a) :
+    RefinesU a (addGhostAtom a n) ((abs a).addGhostAtom n) := addGhostAtom_refines a n hI
+
+theorem refines_add_ghost_pair (a : Alloc) (n : Nat) (hI : Inv a) :
+    RefinesU a (addGhostPair a n) ((abs a).addGhostPair n) := addGhostPair_refines a n hI
+
+theorem refines_remove_ghost_pair (a : Alloc) (n : Nat) (hI : Inv a) (hn : n ≤ a.ghostPairs) :
+    RefinesU a (removeGhostPair a n) (.ok ((abs a).removeGhostPair n)) := removeGhostPair_refines a n hI hn
+
+/-! ### substrings: the one exception (finding C) -/
+
+/-- full statement for `new_substr`: a substring shares its parent's bytes -/
+def SubstrRefines : Prop :=
+  ∀ (a : Alloc) (p : Ptr) (s e : Nat), Inv a → Valid a p →
+    Refines a (newSubstr a p s e) ((abs a).newSubstr (treeOf a p) s e)
+
+/-- … holds outside the defect region: the parent is a heap atom or a pair, or the bounds are
+rejected, or the substring of the inline atom is itself a canonical small integer -/
+theorem substr_refines_partial (a : Alloc) (p : Ptr) (s e : Nat) (hI : Inv a) (hp : Valid a p)
+    (hd : substrDefect p s e = false) :
+    Refines a (newSubstr a p s e) ((abs a).newSubstr (treeOf a p) s e) :=
+  newSubstr_refines a p s e hI hp hd
+
+/-- inside the region everything is as in the reference **except** that the heap size grows by the
+length of the substring (and no heap limit is checked) -/
+theorem substr_defect_exact (a : Alloc) (v s e : Nat) (hI : Inv a) (hp : Valid a (.small v))
+    (hd : substrDefect (.small v) s e = true) (hfull : atomCount a + 1 ≤ Gen.maxNumAtoms) :
+    ∃ a', newSubstr a (.small v) s e = (.ok (.bytes a.atoms.length), a') ∧
+      atomCount a' = atomCount a + 1 ∧ pairCount a' = pairCount a ∧
+      heapSize a' = heapSize a + (e - s) ∧
+      treeOf a' (.bytes a.atoms.length) = .atom (((smallBytes v).drop s).take (e - s)) ∧
+      Inv a' ∧ Ext a a' :=
+  newSubstr_defect a v s e hI hp hd hfull
+
+/-- the allocator of the witness: `new_limited(3)` after `new_small_number(128)` -/
+def witnessAlloc : Alloc :=
+  { u8 := [], pairs := [], atoms := [], heapLimit := 3, ghostAtoms := 3, ghostPairs := 0, ghostHeap := 3 }
+
+theorem witnessAlloc_reachable :
+    (newLimited 3).toOption.map (fun a => (newSmallNumber a 128).2) = some witnessAlloc := by decide
+
+theorem witnessAlloc_inv : Inv witnessAlloc :=
+  ⟨Closed.nil _, by decide, by decide, by decide⟩
+
+/-- `new_substr(0x0080 as inline atom, 0, 1)` reports heap size 4 where the reference says 3 -/
+theorem substr_refines_witness : ¬ SubstrRefines := by
+  intro h
+  have hv : Valid witnessAlloc (.small 128) := by show (128 : Nat) ≤ idxMask; decide
+  have := h witnessAlloc (.small 128) 0 1 witnessAlloc_inv hv
+  have e1 : newSubstr witnessAlloc (.small 128) 0 1 =
+      (.ok (.bytes 0), { witnessAlloc with u8 := [0], atoms := [(0, 1)] }) := rfl
+  have e2 : (abs witnessAlloc).newSubstr (treeOf witnessAlloc (.small 128)) 0 1 =
+      .ok (.atom [0], ⟨4, 0, 3, 3⟩) := rfl
+  rw [e1, e2] at this
+  have := congrArg RefAlloc.heapSize this.1
+  revert this
+  decide
+
+/-! ### restores -/
+
+/-- `restore_resets`: a full restore resets the three counts to the checkpoint's -/
+theorem restore_resets (a0 a : Alloc) (hv : CpValid a (checkpoint a0)) (hl : a.heapLimit = a0.heapLimit) :
+    ∃ a', restoreCheckpoint a (checkpoint a0) = (.ok (), a') ∧ abs a' = abs a0 := by
+  refine ⟨_, restoreCheckpoint_eq a _ hv, ?_⟩
+  have ⟨c1, c2, c3⟩ := restoredC_counts a _ hv
+  have ⟨d1, d2, d3⟩ := checkpoint_counts a0
+  unfold abs
+  rw [c1, c2, c3, d1, d2, d3]
+  congr 1
+
+/-- `transparent_keeps`: a transparent restore leaves the three counts unchanged -/
+theorem transparent_keeps (a : Alloc) (cp : TCheckpoint) (hv : TCpValid a cp) :
+    ∃ a', restoreTransparentCheckpoint a cp = (.ok (), a') ∧ abs a' = abs a := by
+  refine ⟨_, restoreTransparent_eq a cp hv, ?_⟩
+  have ⟨c1, c2, c3⟩ := restoredT_counts a cp hv
+  exact abs_eq_of_counts c1 c2 c3 rfl
+
+/-- (C04, allocator level) `maybe_restore_with_node` never fails under the invariant, and
+whether it aborts, keeps or replaces the node, the three counts are unchanged -/
+theorem maybe_restore_keeps (a : Alloc) (cp : TCheckpoint) (ret : Ptr) (hI : Inv a)
+    (hv : TCpValid a cp) (hr : Valid a ret) :
+    ∃ r a', maybeRestoreWithNode a cp ret = (.ok r, a') ∧ abs a' = abs a ∧ Inv a' := by
+  obtain ⟨r, a', h, ho⟩ := maybeRestore_ok a cp ret hI hv hr
+  refine ⟨r, a', h, ?_⟩
+  cases ho with
+  | aborted => exact ⟨rfl, hI⟩
+  | noReplace _ hw => exact ⟨hw.counts, hw.inv⟩
+  | replace _ q _ hw => exact ⟨hw.counts, hw.inv⟩
+
+/-! ### histories -/
+
+/-- full statement over histories: the count triples reported after every operation of a history
+started from a fresh allocator follow the accounting rule `RefAlloc.after` -/
+def HistoryCounts : Prop :=
+  ∀ (limit : Nat) (a0 : Alloc) (ops : List Op) (sf : Session) (ts : List (Tag × Nat × Nat × Nat)),
+    newLimited limit = .ok a0 → Gen.initGhostHeap ≤ limit → (∀ op ∈ ops, op.wf) →
+    (Session.init a0).run ops = .ok (sf, ts) → CountsFollow (abs a0) (Session.init a0) ops ts
+
+theorem inv_new (limit : Nat) (a0 : Alloc) (h : newLimited limit = .ok a0) (hl : Gen.initGhostHeap ≤ limit) :
+    Inv a0 ∧ HeapOk a0 := by
+  unfold newLimited at h
+  split at h
+  · cases h
+  · next hle =>
+    cases h
+    refine ⟨⟨Closed.nil _, ?_, ?_, ?_⟩, hl⟩
+    · show ([] : List (Nat × Nat)).length + Gen.initGhostAtoms ≤ Gen.maxNumAtoms; decide
+    · show ([] : List (Ptr × Ptr)).length + Gen.initGhostPairs ≤ Gen.maxNumPairs; decide
+    · show limit ≤ u32Max; omega
+
+/-- … holds for every history none of whose steps is in the defect region -/
+theorem history_counts_partial (limit : Nat) (a0 : Alloc) (ops : List Op) (sf : Session)
+    (ts : List (Tag × Nat × Nat × Nat)) (h0 : newLimited limit = .ok a0) (hl : Gen.initGhostHeap ≤ limit)
+    (hw : ∀ op ∈ ops, op.wf) (hd : NoDefect (Session.init a0) ops)
+    (h : (Session.init a0).run ops = .ok (sf, ts)) : CountsFollow (abs a0) (Session.init a0) ops ts := by
+  have ⟨hI, hH⟩ := inv_new limit a0 h0 hl
+  exact run_counts ops _ (SInv.init a0 hI hH) hw hd sf ts h
+
+/-- the history `new_limited(3); new_small_number(128); new_substr(#0, 0, 1)` reports heap 4 -/
+theorem history_counts_witness : ¬ HistoryCounts := by
+  intro h
+  have hw : ∀ op ∈ [Op.small 128, Op.sub 0 0 1], op.wf := by
+    intro op hop; simp at hop; rcases hop with rfl | rfl <;> trivial
+  have hrun := h 3 _ [.small 128, .sub 0 0 1] _ _ rfl (by decide) hw rfl
+  obtain ⟨_, _, _, hnext⟩ := hrun
+  obtain ⟨_, _, hheap, _⟩ := hnext _ rfl
+  have e : (encodeInt ((128 : Nat) : Int)).length = 2 := by
+    rw [← lenForValue_enc 128 (by decide)]; decide
+  have h4 : (4 : Nat) = 1 + (encodeInt ((128 : Nat) : Int)).length + 0 := hheap
+  rw [e] at h4
+  exact absurd h4 (by decide)
 
 end Clvm.Props.C12
